@@ -20,7 +20,11 @@ class VehicleChargeEventsHandler(Handler):
             "energy": [],
             "units": [],
         }
-        self.events = self.prototype.copy()
+        self.events = self._empty()
+
+    def _empty(self) -> Dict[str, List]:
+        # fresh lists: a shallow copy of the prototype would share (and keep filling) the prototype's own lists
+        return {column: [] for column in self.prototype}
 
     def handle(self, reports: List[Report], runner_payload: RunnerPayload):
         for report in reports:
@@ -48,7 +52,7 @@ class VehicleChargeEventsHandler(Handler):
         clears the stored events
         :return:
         """
-        self.events = self.prototype.copy()
+        self.events = self._empty()
 
     def close(self, runner_payload: RunnerPayload):
         pass
